@@ -113,7 +113,7 @@ pub fn generate(rng: &mut Rng, seed: u64, run: u64, max_len: usize) -> Trace {
                 4 | 5 => FaultKind::Zero,
                 6 | 7 => FaultKind::Interrupted,
                 8 | 9 => FaultKind::WouldBlock,
-                _ => FaultKind::Hard(rng.below(3) as u8),
+                _ => FaultKind::Hard(if rng.chance(1, 3) { 10 + rng.below(5) as u8 } else { rng.below(3) as u8 }),
             };
             v.push(Fault { at, kind, times: if rng.chance(1, 8) { 2 } else { 1 } });
         }
